@@ -322,6 +322,13 @@ def main_wrapper(pid, run_fn):
         print(f'replaying {a.replay}: seed={seed} tier={tier} leg={replay.get("leg")} what={str(replay.get("what"))[:200]}')
     ctx = Ctx(pid, tier, seed)
     ctx.replay = replay
+    inner_run = run_fn
+
+    def run_fn(c):
+        # the property's own generators, then the shared leg: the same content held in less common ways (harness/traits.py)
+        inner_run(c)
+        import traits
+        traits.run_for(c, n_per_family=1 if c.tier == 'quick' else 4)
     try:
         ctx.prove()
         run_fn(ctx)
@@ -341,9 +348,18 @@ def main_wrapper(pid, run_fn):
                     ctx.count('source_drift:extra_pass')
                     run_fn(ctx)
                 ctx.seed = seed
-    except Exception:
+    except Exception as exc:
         tb = traceback.format_exc()
-        ctx.report('harness', 'check crashed: ' + tb[-1500:], {'traceback': tb}, found_input=False)
+        frames = traceback.extract_tb(exc.__traceback__)
+        if frames and '/emsarray/' in frames[-1].filename.replace(os.sep, '/') and '/harness/' not in frames[-1].filename:
+            # the implementation raised on a dataset the generators built (an unguarded call in the check): that is an
+            # observation about the implementation - on the validated tree none of these calls fails - and the recorded seed
+            # regenerates the dataset
+            where = ' <- '.join(f'{os.path.basename(fr.filename)}:{fr.name}:{fr.lineno}' for fr in frames[-4:])
+            ctx.report('property', f'emsarray raised {type(exc).__name__}: {str(exc)[:200]} ({where}) on a generated dataset for which '
+                       f'the validated tree answers', {'traceback': tb[-1500:]})
+        else:
+            ctx.report('harness', 'check crashed: ' + tb[-1500:], {'traceback': tb}, found_input=False)
     return ctx.finish()
 
 
